@@ -170,6 +170,31 @@ pub mod uri {
 			("HashSet<UriBuf>(all).contains(&IriRef)", hs.contains(ir)),
 		]
 	}
+	/// Borrowed-to-borrowed conversions of the URI family: (route, allocations, bytes of the result).
+	pub fn borrowed_conversions(r: &RiRef) -> Vec<(&'static str, u64, Option<&[u8]>)> {
+		use crate::engine::alloc;
+		let mut v: Vec<(&'static str, u64, Option<&[u8]>)> = Vec::with_capacity(16);
+		macro_rules! conv {
+			($name:expr, $e:expr) => {{
+				let c0 = alloc::count();
+				let x: Option<&[u8]> = $e;
+				let c1 = alloc::count();
+				v.push(($name, c1 - c0, x));
+			}};
+		}
+		conv!("UriRef::as_uri", r.as_uri().map(|x| x.as_bytes()));
+		conv!("UriRef::as_iri", r.as_iri().map(|x| x.as_bytes()));
+		conv!("UriRef::as_iri_ref", Some(r.as_iri_ref().as_bytes()));
+		conv!("<&IriRef>::from(&UriRef)", Some(<&iref::IriRef>::from(r).as_bytes()));
+		conv!("<&Uri>::try_from(&UriRef)", <&Ri>::try_from(r).ok().map(|x| x.as_bytes()));
+		conv!("<&Iri>::try_from(&UriRef)", <&iref::Iri>::try_from(r).ok().map(|x| x.as_bytes()));
+		if let Some(u) = r.as_uri() {
+			conv!("Uri::as_uri_ref", Some(u.as_uri_ref().as_bytes()));
+			conv!("Uri::as_iri", Some(u.as_iri().as_bytes()));
+			conv!("Uri::as_iri_ref", Some(u.as_iri_ref().as_bytes()));
+		}
+		v
+	}
 	/// The URI family has no public constructor of a path handle over a raw buffer.
 	pub fn raw_path_handle(_text: &[u8], _start: usize, _end: usize, _f: &mut dyn FnMut(&mut PathMut)) -> Option<(Vec<u8>, Vec<u8>)> {
 		None
@@ -184,24 +209,66 @@ pub mod uri {
 				let r = Ri::new(t).ok().unwrap();
 				let o = RiBuf::new(t.to_vec()).ok().unwrap();
 				v.push(("Uri==[u8]", *r == *ub));
+				v.push(("Uri==[u8] (through !=)", !(*r != *ub)));
 				v.push(("Uri==&[u8]", *r == ub));
+				v.push(("Uri==&[u8] (through !=)", !(*r != ub)));
 				v.push(("UriBuf==[u8]", o == *ub));
+				v.push(("UriBuf==[u8] (through !=)", !(o != *ub)));
 				v.push(("UriBuf==&[u8]", o == ub));
+				v.push(("UriBuf==&[u8] (through !=)", !(o != ub)));
 			}
 			Kind::RiRef => {
 				let r = RiRef::new(t).ok().unwrap();
 				let o = RiRefBuf::new(t.to_vec()).ok().unwrap();
 				v.push(("UriRef==[u8]", *r == *ub));
+				v.push(("UriRef==[u8] (through !=)", !(*r != *ub)));
 				v.push(("UriRef==&[u8]", *r == ub));
+				v.push(("UriRef==&[u8] (through !=)", !(*r != ub)));
 				v.push(("UriRefBuf==[u8]", o == *ub));
+				v.push(("UriRefBuf==[u8] (through !=)", !(o != *ub)));
 				v.push(("UriRefBuf==&[u8]", o == ub));
+				v.push(("UriRefBuf==&[u8] (through !=)", !(o != ub)));
 			}
 			Kind::Path => {
 				let r = Path::new(t).ok().unwrap();
 				v.push(("Path==[u8]", *r == *ub));
+				v.push(("Path==[u8] (through !=)", !(*r != *ub)));
 				v.push(("Path==&[u8]", *r == ub));
+				v.push(("Path==&[u8] (through !=)", !(*r != ub)));
 			}
 			_ => {}
+		}
+		// operands that are not UTF-8 at all (a URI is ASCII: never equal). Reported relative to the
+		// expected answer for `u` so that the caller's comparison flags a wrong `true`.
+		{
+			let exp = t == ub;
+			let as_expected = |got: bool| if got { !exp } else { exp };
+			for nb in [&[0xFFu8][..], &[0xC3u8][..], &[b'a', 0xFF][..], &[0xFFu8, b'/'][..]] {
+				match kind {
+					Kind::Ri => {
+						let r = Ri::new(t).ok().unwrap();
+						let o = RiBuf::new(t.to_vec()).ok().unwrap();
+						v.push(("Uri==[u8] (operand not UTF-8)", as_expected(*r == *nb)));
+						v.push(("Uri==&[u8] (operand not UTF-8)", as_expected(*r == nb)));
+						v.push(("UriBuf==[u8] (operand not UTF-8)", as_expected(o == *nb)));
+						v.push(("UriBuf==&[u8] (operand not UTF-8)", as_expected(o == nb)));
+					}
+					Kind::RiRef => {
+						let r = RiRef::new(t).ok().unwrap();
+						let o = RiRefBuf::new(t.to_vec()).ok().unwrap();
+						v.push(("UriRef==[u8] (operand not UTF-8)", as_expected(*r == *nb)));
+						v.push(("UriRef==&[u8] (operand not UTF-8)", as_expected(*r == nb)));
+						v.push(("UriRefBuf==[u8] (operand not UTF-8)", as_expected(o == *nb)));
+						v.push(("UriRefBuf==&[u8] (operand not UTF-8)", as_expected(o == nb)));
+					}
+					Kind::Path => {
+						let r = Path::new(t).ok().unwrap();
+						v.push(("Path==[u8] (operand not UTF-8)", as_expected(*r == *nb)));
+						v.push(("Path==&[u8] (operand not UTF-8)", as_expected(*r == nb)));
+					}
+					_ => {}
+				}
+			}
 		}
 		// comparisons with byte ARRAYS (const-generic impls): the spelling as [u8; N], N <= 8
 		macro_rules! arr {
@@ -214,22 +281,32 @@ pub mod uri {
 								let r = Ri::new(t).ok().unwrap();
 								let o = RiBuf::new(t.to_vec()).ok().unwrap();
 								v.push(("Uri==[u8;N]", *r == a));
+				v.push(("Uri==[u8;N] (through !=)", !(*r != a)));
 								v.push(("Uri==&[u8;N]", *r == &a));
+				v.push(("Uri==&[u8;N] (through !=)", !(*r != &a)));
 								v.push(("UriBuf==[u8;N]", o == a));
+				v.push(("UriBuf==[u8;N] (through !=)", !(o != a)));
 								v.push(("UriBuf==&[u8;N]", o == &a));
+				v.push(("UriBuf==&[u8;N] (through !=)", !(o != &a)));
 							}
 							Kind::RiRef => {
 								let r = RiRef::new(t).ok().unwrap();
 								let o = RiRefBuf::new(t.to_vec()).ok().unwrap();
 								v.push(("UriRef==[u8;N]", *r == a));
+				v.push(("UriRef==[u8;N] (through !=)", !(*r != a)));
 								v.push(("UriRef==&[u8;N]", *r == &a));
+				v.push(("UriRef==&[u8;N] (through !=)", !(*r != &a)));
 								v.push(("UriRefBuf==[u8;N]", o == a));
+				v.push(("UriRefBuf==[u8;N] (through !=)", !(o != a)));
 								v.push(("UriRefBuf==&[u8;N]", o == &a));
+				v.push(("UriRefBuf==&[u8;N] (through !=)", !(o != &a)));
 							}
 							Kind::Path => {
 								let r = Path::new(t).ok().unwrap();
 								v.push(("Path==[u8;N]", *r == a));
+				v.push(("Path==[u8;N] (through !=)", !(*r != a)));
 								v.push(("Path==&[u8;N]", *r == &a));
+				v.push(("Path==&[u8;N] (through !=)", !(*r != &a)));
 							}
 							_ => {}
 						}
@@ -365,6 +442,34 @@ pub mod iri {
 	pub fn extra_collection_lookups(_t: &[u8], _bt: &std::collections::BTreeSet<RiBuf>, _hs: &std::collections::HashSet<RiBuf>) -> Vec<(&'static str, bool)> {
 		Vec::new()
 	}
+	/// Borrowed-to-borrowed conversions of the IRI family: (route, allocations, bytes of the result).
+	pub fn borrowed_conversions(r: &RiRef) -> Vec<(&'static str, u64, Option<&[u8]>)> {
+		use crate::engine::alloc;
+		let mut v: Vec<(&'static str, u64, Option<&[u8]>)> = Vec::with_capacity(16);
+		macro_rules! conv {
+			($name:expr, $e:expr) => {{
+				let c0 = alloc::count();
+				let x: Option<&[u8]> = $e;
+				let c1 = alloc::count();
+				v.push(($name, c1 - c0, x));
+			}};
+		}
+		conv!("IriRef::as_iri", r.as_iri().map(|x| x.as_bytes()));
+		conv!("IriRef::as_uri", r.as_uri().map(|x| x.as_bytes()));
+		conv!("IriRef::as_uri_ref", r.as_uri_ref().map(|x| x.as_bytes()));
+		conv!("<&Iri>::try_from(&IriRef)", <&Ri>::try_from(r).ok().map(|x| x.as_bytes()));
+		conv!("<&Uri>::try_from(&IriRef)", <&iref::Uri>::try_from(r).ok().map(|x| x.as_bytes()));
+		conv!("<&UriRef>::try_from(&IriRef)", <&iref::UriRef>::try_from(r).ok().map(|x| x.as_bytes()));
+		if let Some(i) = r.as_iri() {
+			conv!("Iri::as_iri_ref", Some(i.as_iri_ref().as_bytes()));
+			conv!("<&IriRef>::from(&Iri)", Some(<&RiRef>::from(i).as_bytes()));
+			conv!("Iri::as_uri", i.as_uri().map(|x| x.as_bytes()));
+			conv!("Iri::as_uri_ref", i.as_uri_ref().map(|x| x.as_bytes()));
+			conv!("<&Uri>::try_from(&Iri)", <&iref::Uri>::try_from(i).ok().map(|x| x.as_bytes()));
+			conv!("<&UriRef>::try_from(&Iri)", <&iref::UriRef>::try_from(i).ok().map(|x| x.as_bytes()));
+		}
+		v
+	}
 	/// `iri::PathMut::new` (public, unsafe): a handle over the path range of a raw buffer holding a
 	/// valid IRI reference. Returns (buffer text, text the handle derefs to) after `f`.
 	pub fn raw_path_handle(text: &[u8], start: usize, end: usize, f: &mut dyn FnMut(&mut PathMut)) -> Option<(Vec<u8>, Vec<u8>)> {
@@ -382,8 +487,11 @@ pub mod iri {
 		if kind == super::Kind::Path {
 			let o = PathBuf::new(std::str::from_utf8(t).unwrap().to_string()).ok().unwrap();
 			v.push(("PathBuf==str", o == *u));
+				v.push(("PathBuf==str (through !=)", !(o != *u)));
 			v.push(("PathBuf==&str", o == u));
+				v.push(("PathBuf==&str (through !=)", !(o != u)));
 			v.push(("PathBuf==String", o == u.to_string()));
+				v.push(("PathBuf==String (through !=)", !(o != u.to_string())));
 		}
 		v
 	}
